@@ -33,8 +33,11 @@ class C11Monitor(Monitor):
             x.note("unattributed calls: C11 skipped for this execution")
             return
         seqs = collections.defaultdict(lambda: collections.defaultdict(list))
+        def fk(v):
+            return "nan" if v != v else float(v)
+
         for t, (o, xb, v) in enumerate(zip(log.owner, log.x, log.v)):
-            seqs[o][(xb.tobytes(), float(v))].append(t)
+            seqs[o][(xb.tobytes(), fk(v))].append(t)
         gens_cfg = x.desc.get("gens", 1)
         for l, d in tree.all_demes:
             typ = type(d).__name__
@@ -48,12 +51,12 @@ class C11Monitor(Monitor):
             if g_of >= 2 and len(hist) >= 3:
                 x.flag("deme with several generations per metaepoch")
             for gi, g in enumerate(hist):
-                ks = [(np.asarray(i.genome, dtype=float).tobytes(), float(i.fitness)) for i in g]
+                ks = [(np.asarray(i.genome, dtype=float).tobytes(), fk(i.fitness)) for i in g]
                 new = [k for k in ks if prevset is None or k not in prevset]
                 if prevset is not None:
                     x.extra_count("C11 generation pairs")
                     for k in new:
-                        if np.isinf(k[1]):
+                        if k[1] != "nan" and np.isinf(k[1]):
                             continue
                         if not any(t > b_prev for t in pos.get(k, ())):
                             x.violate(
@@ -90,6 +93,9 @@ def units(tier, seed):
             for sk in ("simple", "nbc"):
                 descs.append(dict(engines=list(eng), gens=gens, obj=("sphere_in", "twofunnel", "plateau")[k % 3], Mh=3, seed=s, sprout={"kind": sk, "L": 2}, observing_gsc=bool(k % 2),
                                   maximize=bool(k % 2), pmut=(1.0, 0.5)[k % 2], hib=bool(k % 5 == 0)))
+    # objective undefined (NaN) on part of the box
+    for k2, eng in enumerate([e for e in shapes_h1() + shapes_h2() if not any(v.startswith("CMA") or v == "LOC" for v in e)][::2]):
+        descs.append(dict(engines=list(eng), gens=2 + k2 % 2, obj=("nanhalf", "nanhole")[k2 % 2], Mh=3, seed=s + k2 % 3, sprout={"kind": "simple", "L": 2}, maximize=bool(k2 % 2), pop=(6, 10)[k2 % 2]))
     us = [{"kind": "run", "descs": c} for c in chunks(descs, 30)]
     rsh = rep_shapes() if tier == "quick" else rep_shapes() + [list(e) for e in shapes_h2()[::3]]
     for k, eng in enumerate(rsh):
